@@ -903,6 +903,108 @@ def f():
     r = R()
     return r.execute('q', a=1), r.execute_error('q', 'E', b=2)
 ''', ['f()'])
+case('one-element list read back in the block of its one append', '''
+def g(v):
+    if v > 2:
+        raise ValueError(v)
+    return [v]
+def f(v):
+    box = []
+    try:
+        put = box.append
+        r = g(v)
+        put(r)
+        got = box[0]
+        tag = 'ok %d' % len(got)
+    except ValueError as e:
+        tag = 'bad'
+        got = None
+    return tag, got, box, box[-1] if box else None
+''', ['f(1)', 'f(3)'], expect_inlined=False)       # (the list is also read whole: left alone)
+
+case('one-element list: direct append, both indices', '''
+def f(v):
+    box = []
+    r = [v, v]
+    box.append(r)
+    a = box[0]
+    if v:
+        b = box[-1]
+    else:
+        b = None
+    return a is r, b is r or b is None
+''', ['f(1)', 'f(0)'])
+
+case('one-element list: through a bound-method temporary inside try', '''
+def g(v):
+    if v > 2:
+        raise ValueError(v)
+    return [v]
+def f(v):
+    box = []
+    try:
+        put = box.append
+        r = g(v)
+        put(r)
+        got = box[0]
+        tag = 'ok %d' % len(got)
+    except ValueError as e:
+        tag = 'bad'
+        got = None
+    return tag, got
+''', ['f(1)', 'f(3)'])
+
+case('one-element list: value re-bound before the read', '''
+def f(v):
+    box = []
+    r = [v]
+    box.append(r)
+    r = 'other'
+    return box[0], r
+''', ['f(1)'], expect_inlined=False)
+
+case('one-element list: append inside a loop', '''
+def f(v):
+    box = []
+    for r in (v, v + 1):
+        box.append(r)
+        last = box[0]
+    return last
+''', ['f(1)'], expect_inlined=False)
+
+case('one-element list: two append sites', '''
+def f(v):
+    box = []
+    r = v + 1
+    if v:
+        box.append(v)
+    box.append(r)
+    return box[0]
+''', ['f(1)', 'f(0)'], expect_inlined=False)
+
+case('one-element list: the list escapes', '''
+def h(b):
+    b.insert(0, 'x')
+def f(v):
+    box = []
+    r = v + 1
+    box.append(r)
+    h(box)
+    return box[0]
+''', ['f(1)'], expect_inlined=False)
+
+case('one-element list: read before the append / in another block', '''
+def f(v):
+    box = []
+    r = v + 1
+    try:
+        if v:
+            box.append(r)
+        out = box[0]
+    except IndexError:
+        out = 'empty'
+    return out
+''', ['f(1)', 'f(0)'], expect_inlined=False)
 
 
 def run_case(name, src, calls, expect_inlined):
